@@ -3,7 +3,8 @@
 import json, os, subprocess, sys
 here = os.path.dirname(os.path.abspath(__file__))
 lean = os.path.join(os.path.dirname(here), "lean")
-obl = sorted(f[:-5] for f in os.listdir(os.path.join(lean, "obligations.d")) if f.endswith(".json"))
+ready = set(json.load(open(os.path.join(here, "ready.json"))))
+obl = sorted(f[:-5] for f in os.listdir(os.path.join(lean, "obligations.d")) if f.endswith(".json") and f[:-5] in ready)
 targets = []
 for p in obl:
     targets += ["BiomModel.Props.%s" % p, "driver_%s" % p.lower()]
